@@ -31,6 +31,7 @@ var checkSpecs = map[string]*checkSpec{
 		outside: "real sockets and goroutine scheduling (blocking Read/Write paths are C13); the CFB arithmetic (C08) and GF(2^8) arithmetic (abstract MDS codec) are separate; payloads longer than 7 bytes",
 	},
 	"C02": {
+		also: []string{"C01_scenario", "C01_session_link", "C17_one_worker"},
 		assumptions: append([]string{
 			"liveness is decided as one-step 'nothing can get stuck' lemmas W1-W5 (DESIGN.md §4 C02) plus the bounded scenarios listed in the evidence; 'eventually' beyond the scenario bounds is the written composition",
 			"a transmitted segment's timestamp was taken from the same clock less than 2^30 ms ago; per-segment rto <= 64*60000",
@@ -66,6 +67,7 @@ var checkSpecs = map[string]*checkSpec{
 		outside: "changing window sizes mid-traffic; the timeout-admission clause across several calls and UDPSession.Write admission are separate harnesses (see DESIGN.md)",
 	},
 	"C05": {
+		also: []string{"C01_recv_content"},
 		assumptions: append([]string{
 			"session level: arbitrary bytes into Listener.packetInput (known / new address) and UDPSession.packetInput after a real connection set-up",
 		}, kcpStateAssumptions...),
@@ -102,6 +104,7 @@ var checkSpecs = map[string]*checkSpec{
 		outside: "the recvmmsg read loop (same filter code shape, not interpretable through ipv4.PacketConn); ghost sessions created by stale traffic after the application closed a session",
 	},
 	"C19": {
+		also:        []string{"C07_session_recovery"},
 		assumptions: []string{"pre-states through the public path; FEC (2,1); session MTU 100 so that maximal payloads stay small"},
 		stubs:       append([]string{"net.PacketConn/net.Addr -> harness types (WriteTo records, ReadFrom scripted or parked)", "hash/crc32.ChecksumIEEE -> chained uninterpreted function of the bytes", "cipher.AEAD -> documented Seal/Open contract over uninterpreted keystream/tag functions (native replay: real AES-GCM)", "fillRand -> fresh tagged symbolic bytes per call", "go statements are recorded, not run: postProcess is driven by the harness until it blocks (vfRunUntilBlocked); SystemTimedSched replaced by an inert scheduler", "reedsolomon -> abstract MDS codec"}, commonStubs...),
 		bounds: map[string]string{
@@ -111,6 +114,7 @@ var checkSpecs = map[string]*checkSpec{
 		outside: "rates (per-call non-blocking argument only); handler on the dialled side is the same kcpInput code path",
 	},
 	"C09": {
+		also:        []string{"C07_skip_parity", "C07_group", "C01_flush_content", "C19_oob"},
 		assumptions: []string{"entropy quality is outside the claim: nonces are 'fresh' when they come from distinct fillRand calls", "README layout: [nonce16|crc32 4] or [nonce12|sealed], [seqid4|type2|size2], 24-byte little-endian headers + len bytes"},
 		stubs:       append([]string{"net.PacketConn/net.Addr -> harness types (WriteTo records, ReadFrom scripted or parked)", "hash/crc32.ChecksumIEEE -> chained uninterpreted function of the bytes", "cipher.AEAD -> documented Seal/Open contract over uninterpreted keystream/tag functions (native replay: real AES-GCM)", "fillRand -> fresh tagged symbolic bytes per call", "go statements are recorded, not run: postProcess is driven by the harness until it blocks (vfRunUntilBlocked); SystemTimedSched replaced by an inert scheduler", "reedsolomon -> abstract MDS codec"}, commonStubs...),
 		bounds: map[string]string{
@@ -133,6 +137,7 @@ var checkSpecs = map[string]*checkSpec{
 		outside: "GF(2^8) arithmetic; interleaving with more than the neighbouring groups; payloads longer than 3 bytes (the FEC layer does not interpret the body)",
 	},
 	"C12": {
+		also: []string{"C07_group", "C07_skip_parity"},
 		assumptions: append([]string{
 			"relational (2-safety) step: second copy of the same symbolic state shifted by fully symbolic ds (own numbers), dr (peer's numbers), dt (every live timestamp and the clock); whether a timestamp is live (segment already transmitted, probe armed, Update called) is case-split",
 			"the fault model is loss/duplication/delay/reordering of genuine datagrams: an incoming ACK never names or passes a segment that was not transmitted yet; the peer's own timestamps are opaque values",
@@ -160,6 +165,7 @@ var checkSpecs = map[string]*checkSpec{
 		outside: "more than 2 blocked callers / 2 events; pre-emptions beyond the bound; real-time latency",
 	},
 	"C15": {
+		also: []string{"C07_session_recovery", "C05_fecdecode", "C16_adopt_then_recover"},
 		assumptions: []string{
 			"ownership: the pool stub gives every acquisition an identity; a second Put and any read/write/copy touching a recycled buffer is reported on every path of every harness of every property (labels pool/double-put, pool/use-after-put); contents of a fresh Get are unconstrained so stale bytes show up as failed equalities in C01/C07/C09",
 			"goroutine release: same scheduler model and bound as C13",
@@ -224,6 +230,7 @@ var checkSpecs = map[string]*checkSpec{
 		outside: "cryptographic strength; concurrent callers; block sizes other than 8 and 16 (encrypt panics for them by design)",
 	},
 	"C10": {
+		also:        []string{"C01_session_link", "C19_oob", "C04_flush"},
 		assumptions: kcpStateAssumptions,
 		stubs:       commonStubs,
 		bounds: map[string]string{
